@@ -105,6 +105,7 @@ class Model:
     def call(self, request, oracles=None, record=False):
         """request: python value; oracles: dict name -> fn(*args) -> python value."""
         text = enc(request)
+        self.last_request = text
         if record:
             self.transcript = []
         self.p.stdin.write(text + "\n")
